@@ -105,8 +105,33 @@ def _periodic(cls, res):
                     bc = pf.BoundaryConditions(mesh)
                     setflags(bc)
                     pf.boundaryConditionsTerm(bc)
+                def f_shared():
+                    # the request arrives through another variable sharing the BC object (the result of
+                    # solveExplicitPDE, which never builds a boundary term itself) and is consumed there
+                    # first; the next solve of the original variable must still fail loudly
+                    v = pf.CellVariable(mesh, 1.0)
+                    w = pf.solveExplicitPDE(v, 0.125, np.zeros(int(np.prod([k + 2 for k in mesh.dims]))))
+                    setflags(w.BCs)
+                    try:
+                        w.apply_BCs()
+                    except ValueError:
+                        raise
+                    pf.solvePDE(v, terms)
+
+                def f_replaced_face():
+                    # the periodic request arrives as a replaced BoundaryFace object (no dirty flag raised)
+                    v = pf.CellVariable(mesh, 1.0)
+                    for ax, m in zip(axes, mode):
+                        lo, hi = U.SIDES[ax]
+                        for side, on in ((lo, m in ("lo", "both")), (hi, m in ("hi", "both"))):
+                            if on:
+                                o = getattr(v.BCs, side)
+                                setattr(v.BCs, side, pf.boundary.BoundaryFace(np.array(o._a), np.array(o._b), np.array(o._c), periodic=True))
+                    v.apply_BCs()
+                    pf.solvePDE(v, terms)
                 for nm, f in (("construct", f_construct), ("apply_BCs", f_apply), ("solvePDE", f_solve),
-                              ("boundaryConditionsTerm", f_bcterm)):
+                              ("boundaryConditionsTerm", f_bcterm), ("solvePDE_after_shared_refresh", f_shared),
+                              ("replaced_face", f_replaced_face)):
                     _expect(res, "C16:periodic_%s:%s:%s" % ("radial" if radial else "valid", nm, tag),
                             "%s with %s" % (nm, desc), _exc(f), want)
 
